@@ -237,3 +237,28 @@ pub proof fn lemma_top_chunk(x: int, l: int)
     ensures x - l >= 0, (x - l) % {I.bits} + l <= {I.bits}, (x - l) / {I.bits} == (x - 1) / {I.bits},
 {
 }
+// (w << 1) | c  with c in {0,1}: bit 0 is c, bit j>0 is bit j-1 of w
+pub proof fn lemma_shl1_or(w: {I}, cw: {I}, c: bool)
+    requires cw == (if c { 1{I} } else { 0{I} })
+    ensures forall|j: nat| j < {I.bits} ==> #[trigger] wbit((w << 1) | cw, j) == (if j == 0 { c } else { wbit(w, (j - 1) as nat) })
+{
+    assert forall|j: nat| j < {I.bits} implies #[trigger] wbit((w << 1) | cw, j) == (if j == 0 { c } else { wbit(w, (j - 1) as nat) }) by {
+        let ju = j as {I};
+        lemma_wbit_or(w << 1, cw, ju);
+        lemma_wbit_shl(w, 1, ju);
+        lemma_wbit_one(ju); lemma_wbit_zero(ju);
+    }
+}
+// (w >> 1) | (c << p): bit p is c (provided bit p+1.. of w are zero), bit j<p is bit j+1 of w
+pub proof fn lemma_shr1_or(w: {I}, cw: {I}, c: bool, p: {I})
+    requires cw == (if c { 1{I} } else { 0{I} }), p < {I.bits}
+    ensures forall|j: nat| j < {I.bits} ==> #[trigger] wbit((w >> 1) | (cw << p), j) == ((j + 1 < {I.bits} && wbit(w, j + 1)) || (j == p && c))
+{
+    assert forall|j: nat| j < {I.bits} implies #[trigger] wbit((w >> 1) | (cw << p), j) == ((j + 1 < {I.bits} && wbit(w, j + 1)) || (j == p && c)) by {
+        let ju = j as {I};
+        lemma_wbit_or(w >> 1, cw << p, ju);
+        lemma_wbit_shr(w, 1, ju);
+        lemma_wbit_shl(cw, p, ju);
+        if ju >= p { lemma_wbit_one((ju - p) as {I}); lemma_wbit_zero((ju - p) as {I}); }
+    }
+}
